@@ -626,7 +626,8 @@ def gen_win(rng, spec, nd_axes):
         if a["hp"]:
             wins.append(1)
         else:
-            wins.append(rng.choice([1, 2, 3, 3, 4, 5]))
+            # keep the neighbourhood size prod(window) moderate on grids with many axes
+            wins.append(rng.choice([1, 2, 3, 3, 4, 5] if len(nd_axes) <= 2 else ([1, 2, 3, 3] if len(nd_axes) == 3 else [1, 2, 2, 3])))
     return wins
 
 
